@@ -1255,6 +1255,7 @@ func runC12(r *Rng, tier string, n int) {
 	runAliasing(r, 12*k)
 	runLoopback(r, 8, 25*k)
 	runRetain(r, tier)
+	runPoison(r, tier)
 	runDeadlines(r, tier)
 	Stat(stat)
 }
